@@ -75,6 +75,8 @@ pub fn blocks(thorough: bool) -> Vec<Block> {
         b.push(Block::new(Universe::new("U_mb{a,e9,-}", &["a", "\u{e9}", "-"], 3, 3, false), vec![Cfg::new(W | R | NE), Cfg::new(NW | R | NE), Cfg::new(W | R | NA | NE)], "w+r+ne, W+r+ne, w+r+na+ne (byte length vs character count in the fallback)"));
         b.push(Block::new(Universe::new("U_fold{s,U+017F,k,U+212A}", &["s", "\u{17f}", "k", "\u{212a}"], 3, 2, false), anch(&[I, I | R, I | X, I | R | X]), "{na,ne,na+ne} x {i, i+r, i+x, i+r+x}"));
         b.push(Block::new(u_kind_pairs(2, 2, false), anch(&[0]), "{na,ne,na+ne}"));
+        b.push(Block::new(u_many(30), anch(&[0, R, X]), "{na,ne,na+ne} x {{}, r, x}"));
+        b.push(Block::new(u_kind_triples(), anch(&[0]), "{na,ne,na+ne}"));
     } else {
         let b2: Vec<u32> = lattice_le(0, ALL_BITS & !(NA | NE | U | C), 2).iter().map(|c| c.bits).collect();
         b.push(Block::new(Universe::new("U_ab3{a,b}", &["a", "b"], 3, 0, true), anch(&bases7), "{na,ne,na+ne} x 7 bases"));
@@ -90,6 +92,8 @@ pub fn blocks(thorough: bool) -> Vec<Block> {
         b.push(Block::new(u_kind_pairs(2, 3, false), anch(&[0, X]), "{na,ne,na+ne} x {{}, x}"));
         b.push(Block::new(u_kind_pairs(2, 2, true), anch(&[R, I]), "{na,ne,na+ne} x {r, i}"));
         b.push(Block::new(u_runs(), anch(&bases7), "{na,ne,na+ne} x 7 bases"));
+        b.push(Block::new(u_many(120), anch(&bases7), "{na,ne,na+ne} x 7 bases"));
+        b.push(Block::new(u_kind_triples(), anch(&[0, X, R]), "{na,ne,na+ne} x {{}, x, r}"));
     }
     b
 }
